@@ -105,23 +105,21 @@ theorem consumerDown_busy {s : St} (h : SInv s) (hb : Busy s) (hp : Live s) (cfg
         { s.prep with pending := s.prep.pending.filter (· != cid) } ok
       exact afterPrepare_busy (by rw [c2]; exact h.rd_jpc.mpr (by simp [hj]))
   · split
-    · split
-      · exact hb1
-      · rename_i co rest hhit
-        split
-        · exact busy_congr hb rfl rfl rfl rfl (fun _ ht _ => ht)
-        · simp only [andThen_fst]
-          have h2 := sinv_stops_prep h1 hp1 (s.stops.filter fun (c : StopCo) => !c.drain.pending.contains cid) s.prep
-          have hp2 : Live { s with cons := s.cons.map f, stops := s.stops.filter fun (c : StopCo) => !c.drain.pending.contains cid } := hp
-          have h3 := drainDone_sinv h2 hp2 { co.drain with pending := co.drain.pending.filter (· != cid) } ok
-          obtain ⟨c1, c2, c3, c4, c5, c6, c7⟩ := drainDone_ctl
-            { s with cons := s.cons.map f, stops := s.stops.filter fun (c : StopCo) => !c.drain.pending.contains cid }
-            { co.drain with pending := co.drain.pending.filter (· != cid) } ok
-          have hb3 : Busy (drainDone { s with cons := s.cons.map f, stops := s.stops.filter fun (c : StopCo) => !c.drain.pending.contains cid }
-            { co.drain with pending := co.drain.pending.filter (· != cid) } ok).1 :=
-            busy_congr hb c4 c3 c5 c2 (fun t ht _ => by rw [c7]; exact ht)
-          exact busy_of_call (stopLoop_res h3.toWInv cfg co.err co.user (rd_idle h3) h3.hb_has) hb3
     · exact hb1
+    · rename_i a co b hsp
+      split
+      · exact busy_congr hb rfl rfl rfl rfl (fun _ ht _ => ht)
+      · simp only [andThen_fst]
+        have h2 := sinv_stops_prep h1 hp1 (a ++ b) s.prep
+        have hp2 : Live { s with cons := s.cons.map f, stops := a ++ b } := hp
+        have h3 := drainDone_sinv h2 hp2 { co.drain with pending := co.drain.pending.filter (· != cid) } ok
+        obtain ⟨c1, c2, c3, c4, c5, c6, c7⟩ := drainDone_ctl
+          { s with cons := s.cons.map f, stops := a ++ b }
+          { co.drain with pending := co.drain.pending.filter (· != cid) } ok
+        have hb3 : Busy (drainDone { s with cons := s.cons.map f, stops := a ++ b }
+          { co.drain with pending := co.drain.pending.filter (· != cid) } ok).1 :=
+          busy_congr hb c4 c3 c5 c2 (fun t ht _ => by rw [c7]; exact ht)
+        exact busy_of_call (stopLoop_res h3.toWInv cfg co.err co.user (rd_idle h3) h3.hb_has) hb3
 
 theorem step_busy {s : St} (h : SInv s) (hb : Busy s) (cfg : Cfg) (e : Ev) (hne : nonKafkaEscape e = false) :
     Busy (step cfg s e).1 := by
